@@ -83,8 +83,10 @@ OPS_SAMPLE = {"quick": 40, "thorough": 400}
 TWIN_SAMPLE = {"quick": 3000, "thorough": 40000}
 
 
-def run_scenarios(rep, name, progs, binaries, prop, max_steps=400, trace=True):
-    """progs: [(id, tokens)] built in Python; the reference machine (MC_MachineFile) supplies the expectation."""
+def run_scenarios(rep, name, progs, binaries, prop, max_steps=400, trace=True, impl_progs=None):
+    """progs: [(id, tokens)] built in Python; the reference machine (MC_MachineFile) supplies the expectation.
+    impl_progs: {id: tokens} - the version of a program that the implementation runs when it differs from the one the machine runs in
+    constants the machine's exact number domain cannot hold (the printed output is claimed to be the same)."""
     import mrun
     model, res = mrun.model_run(progs, tag=prop.lower() + name)
     if res.violation:
@@ -95,7 +97,7 @@ def run_scenarios(rep, name, progs, binaries, prop, max_steps=400, trace=True):
             rep.violation("scenario %s has no result from the reference machine" % pid, {"source": yprog.program_src(toks)})
             continue
         r = dict(model[pid])
-        r["prog"] = toks
+        r["prog"] = impl_progs[pid] if impl_progs and pid in impl_progs else toks
         runs.append(r)
     rep.last_runs = runs                  # model results with their programs, for checks that add a layer of their own (e.g. the CLI)
     skipped = [r for r in runs if not r["done"] or r["oom"]]
